@@ -213,12 +213,38 @@ func (s *TieredCompactionStrategy) CompactRange(minKey, maxKey []byte) error {
 		}
 	}
 
-	// Find overlapping files in each level
+	// Find overlapping files in each level. The selected files are rewritten
+	// whole into the deepest level, below every file that is left out. A file
+	// that is left out must therefore not share any key range with a selected
+	// file: it could hold an older version of a key that a selected file
+	// carries outside the requested range, and would shadow it afterwards.
+	// Widen the range to the selected files' key range until nothing new
+	// overlaps.
+	selected := make(map[*SSTableInfo]bool)
+	for grown := true; grown; {
+		grown = false
+		for level := 0; level <= maxLevel; level++ {
+			for _, file := range s.levels[level] {
+				if selected[file] || !file.Overlaps(rangeInfo) {
+					continue
+				}
+				selected[file] = true
+				grown = true
+				if bytes.Compare(file.FirstKey, rangeInfo.FirstKey) < 0 {
+					rangeInfo.FirstKey = file.FirstKey
+				}
+				if bytes.Compare(file.LastKey, rangeInfo.LastKey) > 0 {
+					rangeInfo.LastKey = file.LastKey
+				}
+			}
+		}
+	}
+
 	for level := 0; level <= maxLevel; level++ {
 		var overlappingFiles []*SSTableInfo
 
 		for _, file := range s.levels[level] {
-			if file.Overlaps(rangeInfo) {
+			if selected[file] {
 				overlappingFiles = append(overlappingFiles, file)
 			}
 		}
